@@ -769,6 +769,52 @@ pub fn run(ctx: &Ctx) -> i32 {
         }
         acc = acc.merge(sg.for_each_next(&sby, Acc::default, |a, t| per_shape(a, t), Acc::merge));
     }
+    // scalar token family: many quoted / escaped spellings, each in every structural context, under every layout
+    {
+        let forms: Vec<Node> = vec![
+            Node::scalar("c\\", Style::Double),
+            Node::scalar("\\", Style::Double),
+            Node::scalar("\\\\", Style::Double),
+            Node::scalar("a\\\"", Style::Double),
+            Node::scalar("a # b", Style::Double),
+            Node::scalar("\"", Style::Double),
+            Node::scalar("tab\there", Style::Double),
+            Node::scalar("é\u{1F600}", Style::Double),
+            Node::scalar("", Style::Double),
+            Node::scalar("it's", Style::Single),
+            Node::scalar("'", Style::Single),
+            Node::scalar("a # b", Style::Single),
+            Node::scalar("\\", Style::Single),
+            Node::scalar("", Style::Single),
+            Node::plain("a#b"),
+            Node::plain("a\\"),
+        ];
+        let mut cases = Vec::new();
+        for x in &forms {
+            let a = Node::plain("a");
+            let ctxs = vec![
+                x.clone(),
+                Node::seq(vec![x.clone(), a.clone()]),
+                Node::seq(vec![a.clone(), x.clone()]),
+                Node::map(vec![(Node::plain("k"), x.clone()), (Node::plain("z"), a.clone())]),
+                Node::map(vec![(x.clone(), a.clone())]),
+                Node::map(vec![(Node::plain("k"), Node::seq(vec![x.clone()]))]),
+            ];
+            for t in ctxs {
+                for layout in 0..lays.len() as u8 {
+                    for flow in [false, true] {
+                        if flow && !t.is_collection() {
+                            continue;
+                        }
+                        cases.push(Case { tree: t.clone(), layout, flow });
+                    }
+                }
+            }
+        }
+        let a = run_list(&p, &cases);
+        acc.notes.insert("scalar_token_family_cases".into(), json!(cases.len()));
+        acc = acc.merge(a);
+    }
     alias_error_family(&mut acc, &lays);
     acc.samples.truncate(0);
     let sample = Node::map(vec![(Node::plain("é"), Node::seq(vec![Node::scalar("q\"é", Style::Double).anchored("ä"), Node::alias("ä")]))]);
